@@ -116,10 +116,12 @@ Record bindrec := mkBind {
   b_rhs : option nid;
   b_rhsNodes : list nid;     (* nodes created in the scope by the latest run of the function *)
   b_cases : list texp;
-  b_gen : nat                (* GHOST: how many times the function has returned *)
+  b_gen : nat;               (* GHOST: how many times the function has returned *)
+  b_memo : bool;             (* incrutil.BindMemoized: results of the function are cached by input *)
+  b_cache : list (Z * option nid)   (* the cache: input value -> right-hand side root *)
 }.
 Global Instance eta_bind : Settable _ :=
-  settable! mkBind <b_lhs; b_lhsChange; b_main; b_rhs; b_rhsNodes; b_cases; b_gen>.
+  settable! mkBind <b_lhs; b_lhsChange; b_main; b_rhs; b_rhsNodes; b_cases; b_gen; b_memo; b_cache>.
 
 (** adjust-heights heap *)
 Record adjheap := mkAdj {
@@ -203,6 +205,9 @@ Inductive op :=
 | NewCutoff (c : cutfn) (a : nid)
 | NewAlways (a : nid)
 | NewBind (cases : list texp) (a : nid)
+| NewBindMemo (cases : list texp) (a : nid)     (* incrutil.BindMemoized with its own cache *)
+| PurgeMemo (b : nid) (x : Z)                   (* Cache().Purge(x) on the memoized bind whose main node is b *)
+| ClearMemo (b : nid)                           (* Cache().Clear() *)
 | Observe (n : nid)
 | Unobserve (o : nat)
 | SetVar (v : nid) (x : Z)
